@@ -286,7 +286,40 @@ def run(ctx):
     ctx.ob('SHUTDOWN', 'stop:leave-before-cancel', okleave, st.where(), 'leave messages are sent before the token is cancelled: %s' % okleave)
     sig = [c for c in st.calls() if c.callee.endswith('::signal_shutdown')]
     ctx.ob('SHUTDOWN', 'stop:signals-core-engine', bool(sig), st.where(), 'stop() signals the core engine\'s maintenance task: %s' % bool(sig))
-    ctx.floor('SHUTDOWN', 6)
+    # stop() shuts down on EVERY path: no return of stop() — also not an error return of an earlier step such as the leave
+    # phase — is reachable without cancelling the token and taking both task handles. (The `?` after leave_network is harmless
+    # only as long as leave_network cannot fail: with it spliced in, its error returns — if it has any — are followed.)
+    st2 = prog.inl(MGR + '::stop', only=r'::leave_network(::\{closure#0\})?$')
+    canc2 = st2.calls(r'CancellationToken::cancel$')
+    takes2 = [c for c in st2.calls(r'Option::<.*>::take$') if 'JoinHandle' in (L.operand_ty(st2, c.args[0]) or '')]
+    rets2 = st2.return_blocks()
+    if not canc2 or len(takes2) < 2 or not rets2:
+        ctx.anchor_fail('SHUTDOWN', 'token cancel / two handle takes / return in stop()')
+    else:
+        par = {}
+        reach = st2.reachable_tracking([0], {c.bb for c in canc2}, parents=par)
+        esc = [r for r in rets2 if r in reach]
+        via = None
+        if esc:
+            u = esc[0]
+            for _ in range(4000):
+                if u is None:
+                    break
+                if u < len(st2.blocks) and st2.blocks[u]['t']['k'] == 'call' and 'from_residual' in (st2.blocks[u]['t'].get('f', {}).get('r') or st2.blocks[u]['t'].get('f', {}).get('fn') or ''):
+                    via = st2.blocks[u]['t'].get('ln')
+                    break
+                u = par.get(u)
+        ctx.ob('SHUTDOWN', 'stop:every-return-after-cancel', not esc, st2.where(via),
+               'no return of stop() is reachable without shutdown.cancel() (leave_network spliced in: its error returns are followed)' if not esc else
+               'stop() can return without cancelling the shutdown token (through the error return at line %s): the background tasks keep running and '
+               'send_dht_request keeps sending after stop() has returned' % via, entry=MGR + '::stop')
+        okt = True
+        for t in takes2:
+            ok_t, _w = L.must_pass(st2, [c.target for c in canc2 if c.target is not None], [t.bb], rets2)
+            okt = okt and ok_t
+        ctx.ob('SHUTDOWN', 'stop:every-return-after-joins', okt, st2.where(),
+               'after the cancel every path to a return of stop() takes both task handles: %s' % okt, entry=MGR + '::stop')
+    ctx.floor('SHUTDOWN', 8)
 
     # ---- 5. no request after stop
     sd = prog.inl(MGR + '::send_dht_request')
